@@ -62,7 +62,7 @@ Initial(d) == /\ d \notin DOMAIN inv
               /\ idx' = PoolPick.idx
               /\ inv' = Put(inv, d, PoolPick.tgt)
               /\ last' = [dlg |-> d, method |-> "INVITE0", tgt |-> PoolPick.tgt, origin |-> "pool"]
-              /\ tx' = Put(tx, d, PoolPick.tgt)
+              /\ tx' = Put(tx, d, "pool")
               /\ UNCHANGED <<pins, answered, due, long>>
 Unrelated == /\ idx' = PoolPick.idx
              /\ last' = [dlg |-> "-", method |-> "OPTIONS", tgt |-> PoolPick.tgt, origin |-> "pool"]
@@ -81,10 +81,12 @@ Answer(d, lg) ==
 \* binding if there is one (else not at all); a final response consumes the binding
 AnswerElsewhere(d, final) ==
              /\ d \in DOMAIN inv
-             /\ IF d \in DOMAIN tx
+             /\ IF d \in DOMAIN tx /\ tx[d] # "pool"
                 THEN /\ pins' = AfterPurge(Put(pins, d, tx[d]), d) /\ due' = FALSE
                      /\ answered' = (IF d \in DOMAIN answered THEN answered ELSE Put(answered, d, tx[d]))
                      /\ long' = long \ {d}
+                ELSE IF d \in DOMAIN tx          \* bound to the rotation: the dialog is released, the property claims nothing further
+                THEN /\ pins' = Drop(pins, d) /\ answered' = Drop(answered, d) /\ long' = long \ {d} /\ UNCHANGED due
                 ELSE UNCHANGED <<pins, due, answered, long>>
              /\ tx' = (IF final THEN Drop(tx, d) ELSE tx)
              /\ last' = NoDispatch
@@ -119,7 +121,7 @@ InDialog(d, m) ==
        IN /\ idx' = IF hit THEN idx ELSE PoolPick.idx
           /\ last' = [dlg |-> d, method |-> m, tgt |-> tgt, origin |-> IF hit THEN "pin" ELSE "pool"]
           /\ inv' = IF m = "INVITE" THEN Put(inv, d, tgt) ELSE inv      \* whoever gets the re-INVITE answers it
-          /\ tx' = IF m = "INVITE" THEN Put(tx, d, tgt) ELSE tx
+          /\ tx' = IF m = "INVITE" THEN Put(tx, d, IF hit THEN tgt ELSE "pool") ELSE tx
           /\ pins' = pins
           /\ UNCHANGED <<answered, due, long>>
 
@@ -160,5 +162,5 @@ StickyStep == [][\A d \in Dialogs : (last'.dlg = d /\ d \in DOMAIN answered /\ l
 Balanced == [][(last' # last /\ last'.tgt # "-" /\ last'.dlg \notin DOMAIN answered) => last'.origin = "pool"]_vars
 PinsAreAnswered == DOMAIN pins \subseteq DOMAIN answered
 \* the binding of a dialog's INVITE transaction names the backend the INVITE went to
-TxAgrees == \A d \in DOMAIN tx : d \in DOMAIN inv /\ tx[d] = inv[d]
+TxAgrees == \A d \in DOMAIN tx : d \in DOMAIN inv /\ tx[d] \in {"pool", inv[d]}
 =============================================================================
